@@ -94,13 +94,28 @@ func envU64(k string, d uint64) uint64 {
 // runOne executes one plan, in a bubble if the check asks for one, converting
 // panics of the harness itself into harness/ keys (exit 2 class).
 func runOne(t *testing.T, c *Check, p *Plan) (res *Result) {
+	var inner *Result
 	defer func() {
 		if r := recover(); r != nil {
-			res = &Result{Key: "harness/panic", Detail: fmt.Sprint(r)}
+			// A bubble that ends with goroutines still blocked panics. If the
+			// run had already reached a verdict (e.g. a task blocked forever
+			// inside the library was reported as a violation), keep it.
+			if inner != nil && inner.Key != "" && !strings.HasPrefix(inner.Key, "harness/") {
+				inner.Detail += fmt.Sprintf("\n(bubble ended with: %v)", r)
+				res = inner
+				if res.Hash == "" {
+					res.Hash = HashBytes([]byte(res.Key))
+				}
+				if res.Evals == 0 {
+					res.Evals = 1
+				}
+				return
+			}
+			res = &Result{Key: "harness/panic", Detail: fmt.Sprint(r), Evals: 1}
 		}
 	}()
 	if c.Bubble {
-		synctest.Test(t, func(t *testing.T) { res = c.Run(p) })
+		synctest.Test(t, func(t *testing.T) { inner = c.Run(p); res = inner })
 	} else {
 		res = c.Run(p)
 	}
